@@ -4,7 +4,7 @@ import z3
 
 from . import theory_np
 from .seq import SymSeq
-from .values import ONE, ExcVal, SymRaise, Undecided, V, fresh_name, num, real, root_space, to_term
+from .values import only_kw, ONE, ExcVal, SymRaise, Undecided, V, fresh_name, num, real, root_space, to_term
 
 
 class SymDict:
@@ -143,6 +143,7 @@ class IndexList:
 
 
 def np_argsort(x, **kw):
+    only_kw("theory_misc.np_argsort", kw)
     theory_np._use("numpy.argsort(x): a permutation of range(len(x))")
     if isinstance(x, Concat):
         return Perm(x.total_len())
